@@ -6,10 +6,17 @@ package referenceclient
 // drives it) against a recording HTTP server: for a requested compression enum value, which
 // name it announces in Content-Encoding, which ALGORITHM the request body is really compressed
 // with, and which names it offers in Accept-Encoding.
+//
+//	c20.clive    a sequence of invoke calls (unary) against a scripted server answering with valid /
+//	             bit-flipped / truncated compressed bodies: every valid one must come back intact, and the
+//	             request the client sent must decode with a fresh third-party reader.
+//	c20.cstream  ONE server-streaming invoke receiving several compressed messages (the same pooled
+//	             decompressor instance on consecutive messages), optionally ended by a corrupted one.
 
 import (
 	"bytes"
 	"context"
+	"encoding/binary"
 	"fmt"
 	"io"
 	"net"
@@ -34,6 +41,8 @@ func init() {
 		ce, alg, acc := verifClientObserve(args[0].i)
 		return vL(vS(ce), vInt(alg), vStrs(acc))
 	}
+	verifKinds["c20.clive"] = verifC20CLive
+	verifKinds["c20.cstream"] = verifC20CStream
 }
 
 type verifSeen struct {
@@ -122,6 +131,241 @@ func verifClientObserve(e int64) (string, int, []string) {
 	}
 	sort.Strings(acc)
 	return seen.ce, verifReqAlg(seen.body), acc
+}
+
+// ---------------------------------------------------------------------------
+// c20.clive / c20.cstream: the scripted server
+// ---------------------------------------------------------------------------
+var verifAlgNames = map[int]string{1: "identity", 2: "gzip", 3: "br", 4: "zstd", 5: "deflate", 6: "snappy"}
+
+// n deterministic bytes that differ per (n, idx)
+func verifPayload(n, idx int) []byte {
+	out := make([]byte, n)
+	for j := range out {
+		out[j] = byte((j*7 + idx*31 + n) % 251)
+	}
+	return out
+}
+
+func verifMod(x, m int64) int64 {
+	if m <= 0 {
+		return 0
+	}
+	return ((x % m) + m) % m
+}
+
+// item (1 n bit): one bit flipped; item (2 n cut): a strict prefix; the single byte 0xff when
+// there is nothing to flip / the prefix would be the whole body
+func verifCorrupt(item vsx, body []byte) []byte {
+	switch item.l[0].i {
+	case 1:
+		if len(body) == 0 {
+			return []byte{0xff}
+		}
+		k := verifMod(item.l[2].i, int64(8*len(body)))
+		out := append([]byte(nil), body...)
+		out[k/8] ^= 1 << uint(k%8)
+		return out
+	case 2:
+		m := int64(len(body))
+		if m < 1 {
+			m = 1
+		}
+		cut := verifMod(item.l[2].i, m)
+		if len(body) == 0 || cut == int64(len(body)) {
+			return []byte{0xff}
+		}
+		return append([]byte(nil), body[:cut]...)
+	}
+	panic("verif: bad item")
+}
+
+type verifScript struct {
+	contentType string
+	encHeader   string // the header announcing the encoding of the answer
+	encName     string
+	body        []byte
+}
+
+var (
+	verifFakeMu   sync.Mutex
+	verifFakeNext *verifScript
+	verifFakeSeen *verifSeen
+	verifFakeOnce sync.Once
+	verifFakeSrv  *httptest.Server
+)
+
+// answers every request with the scripted answer; records the request.  Every answer closes the
+// connection: invoke makes a new transport per call and never closes it.
+func verifFake() *httptest.Server {
+	verifFakeOnce.Do(func() {
+		verifFakeSrv = httptest.NewServer(http.HandlerFunc(func(w http.ResponseWriter, r *http.Request) {
+			b, _ := io.ReadAll(r.Body)
+			verifFakeMu.Lock()
+			verifFakeSeen = &verifSeen{ce: r.Header.Get("Content-Encoding"), ae: r.Header.Get("Accept-Encoding"), body: b}
+			sc := verifFakeNext
+			verifFakeMu.Unlock()
+			if sc == nil {
+				w.WriteHeader(http.StatusInternalServerError)
+				return
+			}
+			w.Header().Set("Content-Type", sc.contentType)
+			w.Header().Set(sc.encHeader, sc.encName)
+			w.Header().Set("Connection", "close")
+			w.Header().Set("Content-Length", strconv.Itoa(len(sc.body)))
+			w.WriteHeader(http.StatusOK)
+			_, _ = w.Write(sc.body)
+		}))
+	})
+	return verifFakeSrv
+}
+
+// one invoke against the scripted server; returns the result (nil on error) and the request seen
+func verifFakeInvoke(alg int, sc *verifScript, method string, st conformancev1.StreamType, msg proto.Message) (*conformancev1.ClientResponseResult, *verifSeen) {
+	srv := verifFake()
+	host, portStr, _ := net.SplitHostPort(strings.TrimPrefix(srv.URL, "http://"))
+	port, _ := strconv.Atoi(portStr)
+	amsg, err := anypb.New(msg)
+	if err != nil {
+		panic(err)
+	}
+	verifFakeMu.Lock()
+	verifFakeNext = sc
+	verifFakeSeen = nil
+	verifFakeMu.Unlock()
+	ctx, cancel := context.WithTimeout(context.Background(), 20*time.Second)
+	defer cancel()
+	res, err := invoke(ctx, &conformancev1.ClientCompatRequest{
+		TestName:        "verif-c20",
+		HttpVersion:     conformancev1.HTTPVersion_HTTP_VERSION_1,
+		Protocol:        conformancev1.Protocol_PROTOCOL_CONNECT,
+		Codec:           conformancev1.Codec_CODEC_PROTO,
+		Compression:     conformancev1.Compression(alg),
+		Host:            host,
+		Port:            uint32(port),
+		Service:         proto.String(conformancev1connect.ConformanceServiceName),
+		Method:          proto.String(method),
+		StreamType:      st,
+		RequestMessages: []*anypb.Any{amsg},
+	}, false, nil)
+	if err != nil {
+		if os.Getenv("VERIF_DEBUG") != "" {
+			fmt.Fprintf(os.Stderr, "verif: invoke: %v\n", err)
+		}
+		res = nil
+	}
+	verifFakeMu.Lock()
+	seen := verifFakeSeen
+	verifFakeNext = nil
+	verifFakeMu.Unlock()
+	return res, seen
+}
+
+// the marshalled message carrying payload(n, idx); the EMPTY message for n == 0
+func verifAnswer(stream bool, n, idx int) []byte {
+	if n == 0 {
+		return []byte{}
+	}
+	var m proto.Message
+	pl := &conformancev1.ConformancePayload{Data: verifPayload(n, idx)}
+	if stream {
+		m = &conformancev1.ServerStreamResponse{Payload: pl}
+	} else {
+		m = &conformancev1.UnaryResponse{Payload: pl}
+	}
+	b, err := proto.Marshal(m)
+	if err != nil {
+		panic(err)
+	}
+	return b
+}
+
+// alg ((0 n) | (1 n bit) | (2 n cut) ...) -> ((ok F) | (any) ...)
+func verifC20CLive(args []vsx) vsx {
+	alg := int(args[0].i)
+	name, ok := verifAlgNames[alg]
+	if !ok || alg < 2 {
+		panic("verif: bad algorithm tag")
+	}
+	out := make([]vsx, 0, len(args[1].l))
+	for idx, item := range args[1].l {
+		n := int(item.l[1].i)
+		body := verifLibCompress(alg, verifAnswer(false, n, idx))
+		if item.l[0].i != 0 {
+			body = verifCorrupt(item, body)
+		}
+		reqData := verifPayload(17, idx)
+		res, seen := verifFakeInvoke(alg, &verifScript{"application/proto", "Content-Encoding", name, body},
+			"Unary", conformancev1.StreamType_STREAM_TYPE_UNARY, &conformancev1.UnaryRequest{RequestData: reqData})
+		if item.l[0].i != 0 {
+			out = append(out, vL(vS("any")))
+			continue
+		}
+		good := res != nil && res.GetError() == nil && len(res.GetPayloads()) == 1 &&
+			bytes.Equal(res.GetPayloads()[0].GetData(), verifPayload(n, idx))
+		if good {
+			good = false
+			if seen != nil {
+				var raw []byte
+				dec := true
+				switch seen.ce {
+				case "", "identity":
+					raw = seen.body
+				case name:
+					cls, y := verifLibFresh(alg, 0, seen.body)
+					dec = cls == 1
+					raw = y
+				default:
+					dec = false
+				}
+				var r conformancev1.UnaryRequest
+				good = dec && proto.Unmarshal(raw, &r) == nil && bytes.Equal(r.GetRequestData(), reqData)
+			}
+		}
+		out = append(out, vL(vS("ok"), vBool(good)))
+	}
+	return vL(out...)
+}
+
+func verifEnvelope(flags byte, data []byte) []byte {
+	out := make([]byte, 5, 5+len(data))
+	out[0] = flags
+	binary.BigEndian.PutUint32(out[1:], uint32(len(data)))
+	return append(out, data...)
+}
+
+// alg (n1 n2 ...) bad -> ((ok F1) (ok F2) ... (any)?)   bad = () | (1 n bit) | (2 n cut)
+func verifC20CStream(args []vsx) vsx {
+	alg := int(args[0].i)
+	name, ok := verifAlgNames[alg]
+	if !ok || alg < 2 {
+		panic("verif: bad algorithm tag")
+	}
+	ns := args[1].l
+	bad := args[2]
+	var body []byte
+	for i, nv := range ns {
+		body = append(body, verifEnvelope(1, verifLibCompress(alg, verifAnswer(true, int(nv.i), i)))...)
+	}
+	if len(bad.l) > 0 {
+		good := verifLibCompress(alg, verifAnswer(true, int(bad.l[1].i), len(ns)))
+		body = append(body, verifEnvelope(1, verifCorrupt(bad, good))...)
+	} else {
+		body = append(body, verifEnvelope(2, []byte("{}"))...)
+	}
+	res, _ := verifFakeInvoke(alg, &verifScript{"application/connect+proto", "Connect-Content-Encoding", name, body},
+		"ServerStream", conformancev1.StreamType_STREAM_TYPE_SERVER_STREAM,
+		&conformancev1.ServerStreamRequest{RequestData: verifPayload(17, 0)})
+	out := make([]vsx, 0, len(ns)+1)
+	for i, nv := range ns {
+		good := res != nil && i < len(res.GetPayloads()) &&
+			bytes.Equal(res.GetPayloads()[i].GetData(), verifPayload(int(nv.i), i))
+		out = append(out, vL(vS("ok"), vBool(good)))
+	}
+	if len(bad.l) > 0 {
+		out = append(out, vL(vS("any")))
+	}
+	return vL(out...)
 }
 
 func TestVerifConsts(t *testing.T) {
